@@ -48,6 +48,7 @@ var excludeKnown = os.Getenv("C11_INCLUDE_KNOWN") == ""
 
 type genCtx struct {
 	cs       bool
+	noInv    bool // current field: case sensitive and indexed as keyword or path (known finding)
 	maxTok   int
 	excluded int
 }
@@ -76,7 +77,7 @@ func (g *genCtx) atom(t *rapid.T) string {
 		return pickS(t, controls, "a")
 	case 14:
 		a := pickS(t, invalids, "a")
-		if g.cs && excludeKnown {
+		if g.noInv && excludeKnown {
 			// known finding (sig keyword-whole-miss etc.): case sensitive + raw invalid bytes in a value
 			g.excluded++
 			return "\ufffd"
@@ -169,7 +170,7 @@ func (g *genCtx) value(t *rapid.T, hints []int, pathy bool) string {
 		return b.String()
 	case 7, 8, 9:
 		h := hints[rapid.IntRange(0, len(hints)-1).Draw(t, "hint")]
-		if h >= 4096 && rapid.IntRange(0, 5).Draw(t, "bigok") != 5 {
+		if h >= 4096 && rapid.IntRange(0, 2).Draw(t, "bigok") != 2 {
 			h = g.maxTok
 		}
 		return g.sized(t, h)
@@ -304,6 +305,7 @@ func (g *genCtx) leafValue(t *rapid.T, f *MField, key string) DVal {
 	if rapid.IntRange(0, 11).Draw(t, "rawlit") == 11 {
 		return DVal{Key: key, Kind: "r", S: pickS(t, rawLits, "lit")}
 	}
+	g.noInv = g.cs && (hasType(f, "keyword") || hasType(f, "path"))
 	return DVal{Key: key, Kind: "s", S: strconv.Quote(g.value(t, g.hints(f), hasType(f, "path")))}
 }
 
